@@ -218,6 +218,17 @@ func kindGrid(progs []*c19Prog, baseSeed uint64) []*Scenario {
 	mk(flat, func(s *Scenario) { s.Cwd = "root" })
 	mk(flat, func(s *Scenario) { s.BOM = true })
 	mk(flat, func(s *Scenario) { s.MixedEOL = 7 })
+	for _, e := range []string{"ascii", "sjis", "utf8"} {
+		e := e
+		mk(flat, func(s *Scenario) { s.BareCR, s.Enc, s.DecoSeed = true, e, s.Seed|1 })
+		mk(coff, func(s *Scenario) { s.BareCR, s.MixedEOL, s.Enc, s.DecoSeed = true, 11, e, s.Seed|1 })
+		mk(flat, func(s *Scenario) { s.BareCR, s.NoFinalNL, s.Enc, s.DecoSeed = true, true, e, s.Seed|1 })
+	}
+	// token damage under every readable kind of source (the diagnostic names the source)
+	for _, k := range allSrcKinds {
+		k := k
+		mk(flat, func(s *Scenario) { s.SrcKind, s.Break, s.BreakLine = k, 1+int(s.Seed%4), len(flat.Header)+1 })
+	}
 	mk(flat, func(s *Scenario) { s.Argv0 = "nask" })
 	mk(flat, func(s *Scenario) {
 		s.Env = []string{"LANG=ja_JP.UTF-8", "LC_ALL=ja_JP.UTF-8"}
@@ -271,6 +282,9 @@ func (c *c19Ctx) genScenario(seed uint64, progs []*c19Prog) *Scenario {
 	s.CRLF = r.Chance(1, 10) && s.RawSrc == ""
 	if !s.CRLF && s.RawSrc == "" && r.Chance(1, 12) {
 		s.MixedEOL = r.U64() | 1
+	}
+	if !s.CRLF && s.RawSrc == "" && r.Chance(1, 14) {
+		s.BareCR = true // whole file, or (with MixedEOL) some of the lines
 	}
 	if r.Chance(1, 12) && s.RawSrc == "" {
 		s.NoFinalNL = true
